@@ -832,6 +832,20 @@ class Heap:
         if not close(a, b, rel=1e-12):
             ctx.violate("round-trip", {"kind": "unpickled_converts_differently"}, f"{where}: the unpickled object converts to {tgt} as {a}, the original as {b}")
         if before[j]["cov"] is not None:
+            # in place as well as through a copy (a copy rebuilds part of the covariance's own state)
+            try:
+                for loc in ("QSW", "TOD"):
+                    n2 = pickle.loads(pickle.dumps(new))
+                    n2.cov.frame = loc
+                    with self.node:
+                        s2 = src.copy()
+                        s2.cov.frame = loc
+                    if np.all(np.isfinite(np.asarray(s2.cov, dtype=float))) and not np.allclose(np.asarray(n2.cov, dtype=float), np.asarray(s2.cov, dtype=float), rtol=1e-9, atol=1e-9):
+                        ctx.violate("round-trip", {"kind": "unpickled_cov_converts_differently", "in_place": True}, f"{where}: the covariance of the unpickled object, converted in place to {loc}, differs from the original's")
+                        return
+            except Exception as e:  # noqa
+                ctx.violate("round-trip", {"kind": "unpickled_object_broken", "had_cov": True}, f"{where}: the covariance of the unpickled object cannot change frame in place: {type(e).__name__}: {e}")
+                return
             try:
                 c2 = new.cov.copy(frame=tgt)
                 with self.node:
